@@ -117,6 +117,31 @@ impl<A: RngCore, B2: RngCore> RngCore for StuckThenRelease<A, B2> {
         Ok(())
     }
 }
+/// hands the inner stream out byte by byte whatever the request size (so that a prefix is consumed exactly)
+pub struct ByteWise<R: RngCore>(pub R);
+impl<R: RngCore> RngCore for ByteWise<R> {
+    fn next_u32(&mut self) -> u32 {
+        let mut b4 = [0u8; 4];
+        self.fill_bytes(&mut b4);
+        u32::from_le_bytes(b4)
+    }
+    fn next_u64(&mut self) -> u64 {
+        let mut b8 = [0u8; 8];
+        self.fill_bytes(&mut b8);
+        u64::from_le_bytes(b8)
+    }
+    fn fill_bytes(&mut self, dest: &mut [u8]) {
+        for d in dest.iter_mut() {
+            let mut one = [0u8; 1];
+            self.0.fill_bytes(&mut one);
+            *d = one[0];
+        }
+    }
+    fn try_fill_bytes(&mut self, dest: &mut [u8]) -> Result<(), rand_core::Error> {
+        self.fill_bytes(dest);
+        Ok(())
+    }
+}
 /// degenerate streams
 pub struct PatternRng {
     pub pat: Vec<u8>,
@@ -298,6 +323,61 @@ fn ark_part(ctx: &Ctx, rec: &mut Rec, zoo: &[SE]) {
             }
         }
     });
+
+    // RNG streams that spell a chosen field element: the first bytes of the stream are a structured Fq value
+    // (every member of the field zoo: roots of unity, square roots of -1, modulus neighbours, ...) as canonical
+    // little-endian bytes, as the bytes of its internal form, as a 48- and a 64-byte wide integer and after one
+    // rejected all-ones draw; ChaCha afterwards. A sampler that builds its candidate from a drawn coordinate
+    // or encoding meets the exceptional values of that construction only this way.
+    rec.declare_class("rng:spells-a-field-value");
+    {
+        let f = &c.f;
+        let fz = crate::zoo::field_zoo(f);
+        let r = (b(1) << 256usize) % &f.p;
+        par(rec, |w, n, rec| {
+            for (zi, (v, vclass)) in fz.iter().enumerate() {
+                if zi % n != w {
+                    continue;
+                }
+                let mut prefixes: Vec<Vec<u8>> = Vec::new();
+                prefixes.push(crate::model::to_le(v, 32));
+                prefixes.push(crate::model::to_le(&f.mul(v, &r), 32));
+                prefixes.push(crate::model::to_le(v, 48));
+                prefixes.push(crate::model::to_le(v, 64));
+                let mut rejected_first = vec![0xffu8; 32];
+                rejected_first.extend(crate::model::to_le(v, 32));
+                prefixes.push(rejected_first);
+                let mut be = crate::model::to_le(v, 32);
+                be.reverse();
+                prefixes.push(be);
+                for (pi, pre) in prefixes.iter().enumerate() {
+                    for which in 0..3usize {
+                        let name = ["Distribution<Element>::sample", "Distribution<AffinePoint>::sample", "UniformRand::rand (Element)"][which];
+                        rec.class("rng:spells-a-field-value");
+                        rec.form(name);
+                        rec.eval(&(name, "spell", v.to_bytes_le(), pi), false);
+                        let pre2 = pre.clone();
+                        let seed = (zi * 16 + pi) as u64;
+                        let res = guarded(|| {
+                            let n0 = pre2.len();
+                            let inner = StuckThenRelease { bad: PatternRng { pat: pre2, pos: 0, counter: false, ctr: 0 }, good: rng_for(seed, "sampler", 2, 0), stuck: n0 };
+                            let mut br = Budget { inner: ByteWise(inner), left: 1 << 16 };
+                            match which {
+                                0 => Distribution::<El>::sample(&Standard, &mut br),
+                                1 => Distribution::<Af>::sample(&Standard, &mut br).into(),
+                                _ => <El as UniformRand>::rand(&mut br),
+                            }
+                        });
+                        match res {
+                            Err(pn) if pn.contains("RNG-BUDGET-EXHAUSTED") => rec.count("sampler_no_output_within_64KiB", 1),
+                            Err(pn) => rec.violation(format!("{P}:{name}:panic"), format!("{pn} (RNG stream starting with the {} bytes {} spelling the field value {} [{vclass}])", pre.len(), hx(pre), hexs(v)), json!({"rng": "spells-a-field-value", "prefix": hx(pre)})),
+                            Ok(e) => { validate(ctx, rec, name, &e, json!({"rng": "spells-a-field-value", "value": hexs(v), "value_class": vclass, "prefix": hx(pre)}), zi % 8 == 0); }
+                        }
+                    }
+                }
+            }
+        });
+    }
 
     // every deserialisation mode (Compress x Validate) of Element / AffinePoint on hostile strings,
     // including crafted on-curve points outside the group in arkworks' own point formats. Modes
